@@ -3,7 +3,8 @@ import S3V.Props.C20Policy
 # C20, policy documents: the two full statements are false of the model (and of the code)
 
 Each counterexample is a concrete value / document; the same inputs are witnesses in
-`corpus/policy.txt` and reproduce on the real code (`known_findings.d/policy.json`).
+`corpus/policy.txt` and reproduce on the real code (`known_findings.d/policy.json`). The second half of
+the file holds the regression facts of the repaired findings.
 -/
 namespace S3V.C20
 open S3V S3V.Policy S3V.PolicySpec
@@ -26,12 +27,9 @@ theorem C20_policy_roundtrip_full_false : ¬ C20_policy_roundtrip_full := by
   rw [hback] at this
   exact hne (Option.some.inj this)
 
-/-- four documents outside the grammar, one per `quirk` region, each accepted:
-    `Action` next to `NotAction` (the first in document order wins), `"Principal": 5` (read as "no
-    principal"), `"Effect": {"Allow": null}`, and the policy as a three-element array -/
+/-- two documents outside the grammar, one per remaining `quirk` region, each accepted:
+    `"Effect": {"Allow": null}`, and the policy as a three-element array -/
 theorem C20_policy_outside_grammar_accepted :
-    (inGrammar Ex.docBothActions = false ∧ fromJson? Ex.docBothActions = some (Ex.policy2 none)) ∧
-    (inGrammar Ex.docNumberPrincipal = false ∧ fromJson? Ex.docNumberPrincipal = some (Ex.policy2 none)) ∧
     (inGrammar Ex.docEffectObjectForm = false ∧ fromJson? Ex.docEffectObjectForm = some (Ex.policy2 none)) ∧
     (inGrammar Ex.docArrayForm = false ∧ fromJson? Ex.docArrayForm = some (Ex.policy2 (some .v2012_10_17))) := by
   decide
@@ -39,9 +37,28 @@ theorem C20_policy_outside_grammar_accepted :
 /-- refusal of everything outside the grammar does not hold -/
 theorem C20_policy_outside_grammar_refused_full_false : ¬ C20_policy_outside_grammar_refused_full := by
   intro h
-  have h1 := h Ex.docBothActions C20_policy_outside_grammar_accepted.1.1
+  have h1 := h Ex.docEffectObjectForm C20_policy_outside_grammar_accepted.1.1
   have h2 := (fromJson_ok_iff _ _).mpr C20_policy_outside_grammar_accepted.1.2
   rw [h1] at h2
   cases h2
+
+/-! ## regression facts: repaired findings
+
+F-policy-1 (`policy-conflicting-rule-members-accepted`) and F-policy-2
+(`policy-malformed-principal-dropped`): the former witnesses are outside the grammar, outside the
+remaining `quirk` regions (so `C20_policy_outside_grammar_refused_partial` speaks about them) and are
+refused. Before the repair the first two were read as `Ex.policy2 none`. -/
+
+/-- `Action` next to `NotAction` (either order), the same block twice, `Principal` next to `NotPrincipal` -/
+theorem C20_policy_conflicting_members_refused :
+    ∀ j ∈ [Ex.docBothActions, Ex.docNotActionThenAction, Ex.docResourceTwice, Ex.docBothPrincipals],
+      violation true j = some .conflictingMembers ∧ quirk j = false ∧ fromJson? j = none := by
+  decide
+
+/-- `"Principal": 5`, a string other than `"*"`, `null`: an error of the statement, not "no principal" -/
+theorem C20_policy_malformed_principal_refused :
+    ∀ j ∈ [Ex.docNumberPrincipal, Ex.docStringPrincipal, Ex.docNullPrincipal],
+      violation true j = some .principalShape ∧ quirk j = false ∧ fromJson? j = none := by
+  decide
 
 end S3V.C20
